@@ -290,10 +290,6 @@ func (x *runner) shortTails(r *rand.Rand) {
 				continue
 			}
 			x.types = smallTypes
-			x.class = ""
-			if kind == "enum" && emptyEnumComment(s) {
-				x.class = classEnumEmptyComment
-			}
 			x.histOnly("C14-"+kind, kind, s, "")
 			try := func(sep, t string) {
 				if !tailOK(kind, end, sep, t) {
@@ -321,7 +317,6 @@ func (x *runner) shortTails(r *rand.Rand) {
 					}
 				}
 			}
-			x.class = ""
 		}
 	}
 }
@@ -783,15 +778,7 @@ type runner struct {
 	rep   *vh.Report
 	hr    *rand.Rand     // PRNG of the call histories (apart from the case stream)
 	types c13.SchemaText // user types of the schema under test (for AddType in histories)
-	class string         // known-finding class of the cases being generated ("" = none)
 }
-
-// classEnumEmptyComment: an EMPTY `//` comment in an enum rule swallows the following line (the enum scanner skips
-// line breaks directly behind `//`), so Len / the comment text run on into foreign text. Recognised structurally:
-// the enum text ends with `//` (blanks aside).
-const classEnumEmptyComment = "K-C14-enum-emptycomment"
-
-func emptyEnumComment(s string) bool { return strings.HasSuffix(strings.TrimRight(s, " \t"), "//") }
 
 // ---------------------------------------------------------------------------------------------------------
 // Len after a call history on the same object
@@ -930,7 +917,18 @@ func (x *runner) history(comp, kind, text string, fresh lenRes, extraInput strin
 // histOnly: the text alone, nothing demanded about the number (a text that may end with a user comment).
 func (x *runner) histOnly(comp, kind, text, extraInput string) {
 	x.rep.Case("H\x00"+kind+"\x00"+text, strings.TrimLeft(text, " \t\r\n") != text || strings.Contains(text, "#"))
-	x.history(comp, kind, text, lenOf(kind, text), extraInput)
+	fresh := lenOf(kind, text)
+	// observation (no demand, C14 speaks of S followed by text that cannot continue it): a user comment that runs
+	// into the END OF INPUT is not counted by schema Len (`{} # c` -> 2, but `{} # c` + LF -> 6)
+	if kind == "schema" && fresh.err == "" {
+		switch {
+		case fresh.n == len(text):
+			x.rep.Stat("observation_schema_alone_Len_counts_whole_text")
+		default:
+			x.rep.Stat("observation_schema_alone_Len_stops_before_trailing_user_comment")
+		}
+	}
+	x.history(comp, kind, text, fresh, extraInput)
 }
 
 // triple checks Len(S+sep+T) = len(S) and returns whether it held.
@@ -948,7 +946,7 @@ func (x *runner) triple(comp, kind, s, end, sep, t, extraInput string) bool {
 		rep.AddDiff(vh.Diff{Component: comp,
 			Input: fmt.Sprintf("S=%q sep=%q T=%q (S ends with %s)%s", s, sep, t, end, extraInput),
 			Impl:  "Len(S+sep+T) = " + got.String(),
-			Model: fmt.Sprintf("LEN %d = len(S)", len(s)), Class: x.class})
+			Model: fmt.Sprintf("LEN %d = len(S)", len(s))})
 		return false
 	}
 	return true
@@ -1080,17 +1078,13 @@ func Run(args []string) {
 				continue
 			}
 			rep.Stat("enum_ending_" + en.name)
-			if emptyEnumComment(s) {
-				x.class = classEnumEmptyComment
-			}
 			x.histOnly("C14-enum", "enum", s, "")
 			sep, t := pickLineBreakTail(r2, "enum", en.end)
 			if x.triple("C14-enum", "enum", s, en.end, sep, t, "") {
 				if again := enumValues((s + sep + t)[:len(s)]); again != vals {
-					rep.AddDiff(vh.Diff{Component: "C14-enum", Input: fmt.Sprintf("S=%q sep=%q T=%q", s, sep, t), Impl: again, Model: vals, Class: x.class})
+					rep.AddDiff(vh.Diff{Component: "C14-enum", Input: fmt.Sprintf("S=%q sep=%q T=%q", s, sep, t), Impl: again, Model: vals})
 				}
 			}
-			x.class = ""
 		}
 	}
 
